@@ -222,6 +222,58 @@ def run(ctx):
                               'direction test, and edges equal only up to round-off are counted twice' % norm(srt[0])[:40]), oid='sorted edges')
     else:
         ctx.ok('R-EDGEPAIR', 'edge order', w17, 'no sorting/merging of coordinate or edge values')
+    # ---- R-EDGECLAMP: method='bounds': the interpolated cell index is clamped to the last cell *after* the interpolation
+    ctx.rule('R-EDGECLAMP', "val2idx(method='bounds'): a value on the closing edge (index n on the edge axis) is clamped to cell n-1 after np.interp")
+    bb = [st for st in iter_stmts(v2.body) if isinstance(st, ast.If) and norm(st.test) == "method == 'bounds'" and any(isinstance(c, ast.Call) and dotted(c.func) == 'np.interp' for c in ast.walk(st))]
+    if not bb:
+        ctx.undec('R-EDGECLAMP', 'bounds branch', w17, "branch method == 'bounds' with np.interp not found")
+    else:
+        interp_st = [s2 for s2 in iter_stmts(bb[0].body) if isinstance(s2, ast.Assign) and any(isinstance(c, ast.Call) and dotted(c.func) == 'np.interp' for c in ast.walk(s2.value))]
+        clamps = [s2 for s2 in iter_stmts(bb[0].body) if isinstance(s2, ast.Assign) and any(isinstance(c, ast.Call) and dotted(c.func) in ('np.minimum', 'np.clip', 'np.fmin')
+                                                                                                and 'size - 1' in norm(c) for c in ast.walk(s2.value))]
+        if interp_st and clamps and clamps[0].lineno > interp_st[0].lineno and norm(clamps[0].targets[0]) == norm(interp_st[0].targets[0]):
+            ctx.ok('R-EDGECLAMP', 'bounds branch', w17, norm(clamps[0])[:70])
+        else:
+            ctx.violation(Finding('R-EDGECLAMP', RP, 'PseudoNetCDFFile.val2idx', interp_st[0] if interp_st else bb[0], 'the cell index from np.interp over the edges is not clamped to size - 1 afterwards: a value exactly on the '
+                                  'closing edge gets index n, a cell that does not exist (np.interp\'s right= only covers values beyond the last edge)'))
+    # ---- R-BOUNDSKEYS: both conventional names of the bounds variable are always candidates
+    ctx.rule('R-BOUNDSKEYS', "val2idx looks for <dim>_bounds and <dim>_bnds whether or not the coordinate names a bounds variable")
+    bk = [st for st in iter_stmts(v2.body) if isinstance(st, ast.Assign) and norm(st.targets[0]) == 'bounds_keys' and isinstance(st.value, ast.List)]
+    if not bk:
+        ctx.undec('R-BOUNDSKEYS', 'candidates', w17, 'bounds_keys is not a list literal')
+    else:
+        elts = [norm(e) for e in bk[0].value.elts]
+        missing = [k for k in ("dim + '_bounds'", "dim + '_bnds'") if k not in elts]
+        if missing:
+            ctx.violation(Finding('R-BOUNDSKEYS', RP, 'PseudoNetCDFFile.val2idx', bk[0], 'the candidate list %s does not always contain %s: with a stale or missing bounds attribute an existing bounds variable is '
+                                  'not found and the cell edges are approximated from the centres' % (elts, missing)))
+        else:
+            ctx.ok('R-BOUNDSKEYS', 'candidates', w17, str(elts))
+    # ---- R-CALSRC: units and calendar of a time axis are read from the same object
+    ctx.rule('R-CALSRC', 'date2num reads the calendar from the variable it reads the units from')
+    d2 = mod.func('PseudoNetCDFFile.date2num')
+    w18 = 'src/PseudoNetCDF/%s PseudoNetCDFFile.date2num' % RP
+    alias = {}
+    for st in iter_stmts(d2.body):
+        if isinstance(st, ast.Assign) and isinstance(st.targets[0], ast.Name) and isinstance(st.value, ast.Subscript):
+            alias[st.targets[0].id] = norm(st.value)
+    usrc = csrc = None
+    for st in iter_stmts(d2.body):
+        if isinstance(st, ast.Assign) and isinstance(st.targets[0], ast.Name):
+            for n in ast.walk(st.value):
+                if isinstance(n, ast.Attribute) and n.attr == 'units':
+                    usrc = alias.get(norm(n.value), norm(n.value))
+                if isinstance(n, ast.Call) and dotted(n.func) == 'getattr' and len(n.args) >= 2 and isinstance(n.args[1], ast.Constant) and n.args[1].value == 'calendar':
+                    csrc = (alias.get(norm(n.args[0]), norm(n.args[0])), st)
+                if isinstance(n, ast.Attribute) and n.attr == 'calendar':
+                    csrc = (alias.get(norm(n.value), norm(n.value)), st)
+    if usrc is None or csrc is None:
+        ctx.undec('R-CALSRC', 'date2num', w18, 'units / calendar reads not found')
+    elif usrc == csrc[0]:
+        ctx.ok('R-CALSRC', 'date2num', w18, 'both from %s' % usrc)
+    else:
+        ctx.violation(Finding('R-CALSRC', RP, 'PseudoNetCDFFile.date2num', csrc[1], 'the units are read from %s but the calendar from %s: a non-standard calendar declared on the time variable is ignored, so datetimes '
+                              'convert to numbers of another calendar and the lookup returns shifted cells' % (usrc, csrc[0])))
     ctx.rule('R-MASKKEEP', "no mask-dropping conversion between the masked fractional index and the returned index")
     masked_at = None
     for st in iter_stmts(fn.body):
